@@ -31,6 +31,34 @@ pub fn varint(mut v: u64, out: &mut Vec<u8>) {
         out.push(b | 0x80);
     }
 }
+/// non-minimal varint: `pad` extra continuation bytes carrying zero bits (still a valid varint for every protobuf parser)
+pub fn varint_padded(v: u64, pad: usize, out: &mut Vec<u8>) {
+    let mut tmp = vec![];
+    varint(v, &mut tmp);
+    if pad == 0 || tmp.len() + pad > 10 {
+        out.extend(tmp);
+        return;
+    }
+    let n = tmp.len();
+    tmp[n - 1] |= 0x80;
+    for _ in 0..pad - 1 {
+        tmp.push(0x80);
+    }
+    tmp.push(0x00);
+    out.extend(tmp);
+}
+pub fn fld_varint_padded(no: u32, v: u64, pad: usize, out: &mut Vec<u8>) {
+    varint(((no as u64) << 3) | 0, out);
+    varint_padded(v, pad, out);
+}
+pub fn fld_fixed32(no: u32, v: u32, out: &mut Vec<u8>) {
+    varint(((no as u64) << 3) | 5, out);
+    out.extend_from_slice(&v.to_le_bytes());
+}
+pub fn fld_fixed64(no: u32, v: u64, out: &mut Vec<u8>) {
+    varint(((no as u64) << 3) | 1, out);
+    out.extend_from_slice(&v.to_le_bytes());
+}
 pub fn fld_varint(no: u32, v: u64, out: &mut Vec<u8>) {
     varint(((no as u64) << 3) | 0, out);
     varint(v, out);
@@ -144,20 +172,36 @@ pub struct Dict {
     pub extra: Vec<u8>,
     /// encode rebuild_order unpacked (one varint field per element) instead of packed
     pub unpacked_order: bool,
+    /// order in which the top-level fields are emitted (empty = 1..8); protobuf allows any order
+    pub field_order: Vec<u32>,
+    /// extra continuation bytes for the varints of sizes and offsets (non-minimal but valid)
+    pub pad: usize,
+    /// emit source_total_size twice, first with this wrong value (last one wins in protobuf)
+    pub dup_total: Option<u64>,
 }
 
 impl Dict {
     pub fn encode(&self) -> Vec<u8> {
+        let pad = self.pad;
+        let mut groups: std::collections::BTreeMap<u32, Vec<u8>> = std::collections::BTreeMap::new();
+        let mut g = |no: u32| -> Vec<u8> { let _ = no; vec![] };
+        let _ = &mut g;
         let mut d = vec![];
         if !self.version.is_empty() {
             fld_bytes(1, self.version.as_bytes(), &mut d);
         }
+        groups.insert(1, std::mem::take(&mut d));
         if !self.source_checksum.is_empty() {
             fld_bytes(2, &self.source_checksum, &mut d);
         }
-        if self.source_total_size != 0 {
-            fld_varint(3, self.source_total_size, &mut d);
+        groups.insert(2, std::mem::take(&mut d));
+        if let Some(w) = self.dup_total {
+            fld_varint(3, w, &mut d);
         }
+        if self.source_total_size != 0 || self.dup_total.is_some() {
+            fld_varint_padded(3, self.source_total_size, pad, &mut d);
+        }
+        groups.insert(3, std::mem::take(&mut d));
         if let Some(p) = &self.params {
             let mut m = vec![];
             if p.filter_bits != 0 {
@@ -167,7 +211,7 @@ impl Dict {
                 fld_varint(2, p.min as u64, &mut m);
             }
             if p.max != 0 {
-                fld_varint(3, p.max as u64, &mut m);
+                fld_varint_padded(3, p.max as u64, pad, &mut m);
             }
             if p.window != 0 {
                 fld_varint(4, p.window as u64, &mut m);
@@ -180,6 +224,7 @@ impl Dict {
             }
             fld_bytes(4, &m, &mut d);
         }
+        groups.insert(4, std::mem::take(&mut d));
         if let Some((t, l)) = self.compression {
             let mut m = vec![];
             if t != 0 {
@@ -190,6 +235,7 @@ impl Dict {
             }
             fld_bytes(5, &m, &mut d);
         }
+        groups.insert(5, std::mem::take(&mut d));
         if !self.rebuild_order.is_empty() {
             if self.unpacked_order {
                 for &o in &self.rebuild_order {
@@ -198,28 +244,30 @@ impl Dict {
             } else {
                 let mut m = vec![];
                 for &o in &self.rebuild_order {
-                    varint(o as u64, &mut m);
+                    varint_padded(o as u64, if pad > 0 { 1 } else { 0 }, &mut m);
                 }
                 fld_bytes(6, &m, &mut d);
             }
         }
+        groups.insert(6, std::mem::take(&mut d));
         for c in &self.descs {
             let mut m = vec![];
             if !c.checksum.is_empty() {
                 fld_bytes(1, &c.checksum, &mut m);
             }
             if c.archive_size != 0 {
-                fld_varint(3, c.archive_size as u64, &mut m);
+                fld_varint_padded(3, c.archive_size as u64, pad, &mut m);
             }
             if c.archive_offset != 0 {
-                fld_varint(4, c.archive_offset, &mut m);
+                fld_varint_padded(4, c.archive_offset, pad, &mut m);
             }
             if c.source_size != 0 {
-                fld_varint(5, c.source_size as u64, &mut m);
+                fld_varint_padded(5, c.source_size as u64, pad, &mut m);
             }
             m.extend_from_slice(&c.extra);
             fld_bytes(7, &m, &mut d);
         }
+        groups.insert(7, std::mem::take(&mut d));
         for (k, v) in &self.metadata {
             let mut m = vec![];
             if !k.is_empty() {
@@ -230,8 +278,19 @@ impl Dict {
             }
             fld_bytes(8, &m, &mut d);
         }
-        d.extend_from_slice(&self.extra);
-        d
+        groups.insert(8, std::mem::take(&mut d));
+        let order: Vec<u32> = if self.field_order.is_empty() { (1..=8).collect() } else { self.field_order.clone() };
+        let mut out = vec![];
+        for no in order {
+            if let Some(b) = groups.remove(&no) {
+                out.extend(b);
+            }
+        }
+        for (_no, b) in groups {
+            out.extend(b);
+        }
+        out.extend_from_slice(&self.extra);
+        out
     }
 }
 
@@ -302,6 +361,9 @@ pub fn decode_dict(b: &[u8]) -> Result<(Dict, usize), String> {
         metadata: vec![],
         extra: vec![],
         unpacked_order: false,
+        field_order: vec![],
+        pad: 0,
+        dup_total: None,
     };
     let mut unknown = 0;
     for (no, w) in parse_msg(b)? {
